@@ -5,6 +5,7 @@ import (
 	"fmt"
 	"math/rand"
 	"sort"
+	"strings"
 	"time"
 
 	"github.com/bartossh/Computantis/src/accountant"
@@ -90,6 +91,10 @@ func c14FollowUp(world *ledger.World, rng *rand.Rand, peer, synced *ledger.Node,
 			return "rejected"
 		}
 	}
+	// heavy: since it synced, the node has admitted a vertex heavier than the value its weight counter starts from (50).
+	// Only from then on can the weight rule of the listed finding (minimal-weight-rule) refuse anything on the unchanged
+	// tree: a refusal by that rule before is not the listed finding and is reported under the plain signature.
+	heavy := false
 	// transactions of tentative tips the peer dropped as invalid before it served the DAG are sealed again by another
 	// node and gossiped (they are not in the peer's ledger, hence not in the synced one either)
 	dropped := append([]ledger.H{}, peer.Dropped...)
@@ -121,6 +126,9 @@ func c14FollowUp(world *ledger.World, rng *rand.Rand, peer, synced *ledger.Node,
 		e1 := world.Deliver(peer, &v, "transaction of a dropped tip sealed again")
 		e2 := world.Deliver(synced, &v, "transaction of a dropped tip sealed again")
 		world.EvalFor("C14", 1)
+		if e2 == nil && v.Weight > 50 {
+			heavy = true
+		}
 		world.Res.Count("c14_dropped_tip_transactions_resealed", 1)
 		world.NontrivFor("C14", fmt.Sprintf("follow-up/dropped-tip-resealed/%s", class(e1)))
 		if class(e1) != class(e2) {
@@ -142,6 +150,13 @@ func c14FollowUp(world *ledger.World, rng *rand.Rand, peer, synced *ledger.Node,
 		e2 := world.Deliver(synced, &v, "follow-up on the oldest tip")
 		world.EvalFor("C14", 1)
 		world.NontrivFor("C14", fmt.Sprintf("follow-up/oldest-tip/%s/tips%d", class(e1), bucketN(len(s.Leaves))))
+		if e2 == nil && v.Weight > 50 {
+			heavy = true
+		}
+		if heavy && class(e1) != class(e2) && c14MinimalWeight(e1) != c14MinimalWeight(e2) {
+			world.Violate("C14", "follow-up-gossip-treated-differently/minimal-weight-rule", fmt.Sprintf("a vertex on the oldest tip (weight %d) was %s by the peer (%v) and %s by the synced node (%v)", ow, class(e1), e1, class(e2), e2))
+			return
+		}
 		if class(e1) != class(e2) {
 			world.Violate("C14", "follow-up-gossip-treated-differently/oldest-tip", fmt.Sprintf("a vertex on the oldest tip (weight %d) was %s by the peer (%v) and %s by the synced node (%v)", ow, class(e1), e1, class(e2), e2))
 		}
@@ -222,10 +237,92 @@ func c14FollowUp(world *ledger.World, rng *rand.Rand, peer, synced *ledger.Node,
 		e2 := world.Deliver(synced, &v, fmt.Sprintf("follow-up kind %d", kind))
 		world.EvalFor("C14", 1)
 		if class(e1) != class(e2) {
+			if heavy && c14MinimalWeight(e1) != c14MinimalWeight(e2) {
+				// the listed finding: one of the two refuses the parent tip for its weight, by a rule that compares with
+				// counters of the node's own past (fixed witness: c14MinimalWeightWitness). From here on the two ledgers
+				// differ as a consequence; the follow-up ends.
+				world.Violate("C14", "follow-up-gossip-treated-differently/minimal-weight-rule", fmt.Sprintf("the same vertex (kind %d) was %s by the peer (%v) and %s by the synced node (%v)", kind, class(e1), e1, class(e2), e2))
+				return
+			}
 			world.Violate("C14", "follow-up-gossip-treated-differently", fmt.Sprintf("the same vertex (kind %d) was %s by the peer (%v) and %s by the synced node (%v)", kind, class(e1), e1, class(e2), e2))
+		}
+		if e2 == nil && v.Weight > 50 {
+			heavy = true
 		}
 	}
 	c14Compare(world, peer, synced, "after the follow-up gossip")
+}
+
+// c14MinimalWeight: the answer is the ledger's refusal of a parent tip for its weight.
+func c14MinimalWeight(err error) bool {
+	return err != nil && strings.Contains(err.Error(), "condition of minimal weight")
+}
+
+// c14MinimalWeightWitness is the fixed witness of the known finding follow-up-gossip-treated-differently/
+// minimal-weight-rule: a peer with a chain of 75 vertices and a late side vertex near its start; a node syncs (equal
+// ledgers); both get a vertex on the side tip (accepted by both), two vertices on the main tip (accepted by both: the
+// synced node's highest weight seen moves up to the chain's, its throughput counter started at 50 when it loaded),
+// then a second vertex on the side branch: the peer, whose throughput counter grew with every vertex it ever validated,
+// accepts it, the synced node refuses its parent for being lighter than highest weight minus throughput.
+func c14MinimalWeightWitness(w *core.WorkerCtx) {
+	rng := core.Rand(w.Seed, "C14minweight")
+	desc := "c14 witness: chain of 75 with a side vertex on its 5th vertex, sync, then gossip on the side branch after gossip on the main tip"
+	w.Mark("%s", desc)
+	world := ledger.NewWorld(rng, w.R, []string{"C14"}, allSnapOracles, desc)
+	defer world.Close()
+	if _, err := ledger.Setup(world, ledger.Profile{Nodes: 1, Users: 4, SupplyClass: 0, Delivery: "lockstep"}); err != nil {
+		w.R.Inconc("setup failed: " + err.Error())
+		return
+	}
+	n := world.Nodes[0]
+	u := world.Users
+	var old, last accountant.Vertex
+	world.Quiet = true
+	for i := 0; i < 75; i++ {
+		t := world.NewTrx(u[0], u[1+i%3].Addr, spice.Melange{SupplementaryCurrency: uint64(1 + i%9)}, nil)
+		v, err := world.Propose(n, &t, "grow")
+		if err == nil {
+			last = v
+			if i == 4 {
+				old = v
+			}
+		}
+	}
+	world.Quiet = false
+	world.Observe(n, ledger.OpInfo{Kind: "milestone", OK: true})
+	st := world.NewTrx(u[0], u[2].Addr, spice.Melange{}, []byte("late side vertex"))
+	side := ledger.ForgeVertex(world.Sealers[0], st, old.Hash, old.Hash, old.Weight+1, world.Now())
+	if err := world.Deliver(n, &side, "late vertex on an old inner vertex"); err != nil {
+		w.R.Inconc("witness: the side vertex was refused: " + err.Error())
+		return
+	}
+	nn, err := world.AddSyncedNode("J-minweight", n)
+	if err != nil {
+		w.R.Inconc("witness: the sync failed: " + err.Error())
+		return
+	}
+	defer world.CloseNode(nn)
+	both := func(v *accountant.Vertex, tag string) (error, error) {
+		return world.Deliver(n, v, tag), world.Deliver(nn, v, tag)
+	}
+	t1 := world.NewTrx(u[0], u[1].Addr, spice.Melange{}, []byte("first on the side branch"))
+	s1 := ledger.ForgeVertex(world.Sealers[0], t1, side.Hash, side.Hash, side.Weight+1, world.Now())
+	both(&s1, "first vertex on the side branch")
+	parent := last
+	for k := 0; k < 2; k++ {
+		tm := world.NewTrx(u[0], u[2].Addr, spice.Melange{}, []byte(fmt.Sprintf("on the main tip %d", k)))
+		m := ledger.ForgeVertex(world.Sealers[1], tm, parent.Hash, parent.Hash, parent.Weight+1, world.Now())
+		both(&m, "vertex on the main tip")
+		parent = m
+	}
+	t2 := world.NewTrx(u[0], u[3].Addr, spice.Melange{}, []byte("second on the side branch"))
+	s2 := ledger.ForgeVertex(world.Sealers[0], t2, s1.Hash, s1.Hash, s1.Weight+1, world.Now())
+	e1, e2 := both(&s2, "second vertex on the side branch")
+	world.EvalFor("C14", 1)
+	world.NontrivFor("C14", "witness/minimal-weight-rule")
+	if (e1 == nil) != (e2 == nil) && c14MinimalWeight(e1) != c14MinimalWeight(e2) {
+		world.Violate("C14", "follow-up-gossip-treated-differently/minimal-weight-rule", fmt.Sprintf("a vertex of weight %d on a side branch was answered %v by the peer and %v by the node that synced from it", s2.Weight, e1, e2))
+	}
 }
 
 type c14Corruption struct {
@@ -632,6 +729,7 @@ func c14Worker(w *core.WorkerCtx) {
 	}
 	if w.Batch == 0 {
 		c14AfterTruncation(w)
+		c14MinimalWeightWitness(w)
 	}
 	// a closed node keeps ~8 MB referenced for five minutes (the stores' own ticker goroutines): few scenarios per process
 	scen := w.Pick(3, 2)
